@@ -217,7 +217,7 @@ def js_fingerprint(fn):
                         for x in obj['elements']:
                             pass
                     else:
-                        preds.add((js_name(obj), 'Contains' if pos else 'NotContains', arg.get('value')))
+                        preds.add((js_name(obj), 'Contains' if pos else 'NotContains', arg.get('value') if arg['type'] == 'Literal' else js_name(arg)))
                     continue
             if r['type'] == 'Literal':
                 preds.add((js_name(l), op, num(r['value'])))
